@@ -14,6 +14,7 @@ func init() {
 	vpRegister("c04_positions", vpH_c04_positions)
 	vpRegister("c04_walkers", vpH_c04_walkers)
 	vpRegister("c04_error", vpH_c04_error)
+	vpRegister("c04_transform", vpH_c04_transform)
 }
 
 // ---- (b) every string position of every step kind ----
@@ -229,6 +230,21 @@ func vpH_c04_positions() {
 }
 
 // ---- (c) an expansion error is reported ----
+
+// The env transformer itself: on every string it is the single-pass expansion
+// and nothing else - no pre-filter, fast path or post-processing that treats
+// some shape of string (escapes, a trailing `$`, braces) differently.
+func vpH_c04_transform() {
+	s := vpStrUpTo(vpParam("len"), "Ax$\\\\{}(")
+	val := vpStrUpTo(1, "x$")
+	envm := vpMapEnv{"A": val}
+	want, werr := interpolate.Interpolate(envm, s)
+	got, gerr := envInterpolator{env: envm}.Transform(s)
+	vpAssert((gerr == nil) == (werr == nil), "the env transformer fails exactly when the single-pass expansion fails")
+	if gerr == nil && werr == nil {
+		vpAssert(got == want, "the env transformer returns exactly the single-pass expansion of the string")
+	}
+}
 
 func vpH_c04_error() {
 	bad := "${A" // unterminated brace expansion: the library reports an error
